@@ -20,6 +20,7 @@ macro_rules! dispatch {
             "C08" => $f(&props::c08::C08, $($arg),*),
             "C09" => $f(&props::c09::C09, $($arg),*),
             "C10" => $f(&props::c10::C10, $($arg),*),
+            "C11" => $f(&props::c11::C11, $($arg),*),
             "C12" => $f(&props::c12::C12, $($arg),*),
             "C13" => $f(&props::c13::C13, $($arg),*),
             "C14" => $f(&props::c14::C14, $($arg),*),
@@ -27,6 +28,7 @@ macro_rules! dispatch {
             "C16" => $f(&props::c16::C16, $($arg),*),
             "C17" => $f(&props::c17::C17, $($arg),*),
             "C18" => $f(&props::c18::C18, $($arg),*),
+            "C19" => $f(&props::c19::C19, $($arg),*),
             other => {
                 eprintln!("unknown property id {other}");
                 2
